@@ -1232,7 +1232,47 @@ func errClass(s string) string {
 	return s
 }
 
+// tornMeta reports whether a crash image holds, for some freezer table metadata file, a
+// content that is none of the states reachable by applying each unsynced mutation of that
+// file completely or not at all: a torn or zero-filled extending rewrite.
+func tornMeta(model *simdisk.FSModel, img map[string][]byte) string {
+	paths := make([]string, 0, len(img))
+	for p := range img {
+		if strings.HasSuffix(p, ".meta") {
+			paths = append(paths, p)
+		}
+	}
+	sort.Strings(paths)
+	for _, p := range paths {
+		whole := false
+		for _, st := range model.WholeWriteStates(p) {
+			if bytes.Equal(st, img[p]) {
+				whole = true
+				break
+			}
+		}
+		if !whole {
+			return p
+		}
+	}
+	return ""
+}
+
+const keyTornMeta = "reopen-fails:power-loss:torn-metadata-file"
+
 func (w *world) rebootSafe(model *simdisk.FSModel, img map[string][]byte, mem ethdb.KeyValueStore, s *snap, cu cutRef, draw int) (v *simcore.Violation) {
+	defer func() {
+		// A power-loss image with a torn table metadata file is the recorded cause
+		// "torn-metadata-file" whatever the symptom: the torn bytes may fail to decode, or
+		// decode to a garbage flushOffset / virtual tail (truncate: invalid argument, missing
+		// data file, hidden items, unreadable canonical blocks). Key by the cause.
+		if v != nil && draw > 0 && v.Key != keyTornMeta {
+			if p := tornMeta(model, img); p != "" {
+				v.Msg = fmt.Sprintf("[power-loss image holds a torn metadata file %s; symptom: %s] %s", strings.TrimPrefix(p, model.Root), v.Key, v.Msg)
+				v.Key = keyTornMeta
+			}
+		}
+	}()
 	defer func() {
 		if r := recover(); r != nil {
 			if hp, ok := r.(simcore.HarnessPanic); ok {
